@@ -512,7 +512,7 @@ def generate(ctx, batch, idx):
         ops.append(["reopen", r.randrange(1 << 30)])
         return {"kind": "ufo", "ci": r.random() < 0.5, "fv": fv, "fsseed": r.randrange(1 << 30), "clash": r.random() < 0.5, "validate": r.random() < 0.9, "lxml": r.random() < 0.7, "ops": ops}
     if batch == "designspace":
-        return {"kind": "designspace", "seed": r.randrange(1 << 30), "lxml": r.random() < 0.7, "hiprec": r.random() < 0.05, "ops": [[r.choice(["axis", "axis", "discrete", "mapping", "rule", "source", "source", "instance", "label", "loclabel", "vf", "lib"]), r.randrange(1 << 30)] for _ in range(r.randint(1, 14))]}
+        return {"kind": "designspace", "seed": r.randrange(1 << 30), "lxml": r.random() < 0.7, "hiprec": r.random() < 0.05, "fmt": r.choice([None, None, "4.0", "4.1", "5.0", "5.1"]), "ops": [[r.choice(["axis", "axis", "discrete", "mapping", "rule", "source", "source", "instance", "label", "loclabel", "vf", "lib"]), r.randrange(1 << 30)] for _ in range(r.randint(1, 14))]}
     if batch == "plist":
         return {"kind": "plist", "seed": r.randrange(1 << 30), "lxml": r.random() < 0.6, "ops": [["value", r.randrange(1 << 30)] for _ in range(r.randint(1, 4))]}
     if batch == "names":
